@@ -36,6 +36,8 @@ from .noninterf import CORE_MODS
 SERVER_MODS = ('clastic.server', 'clastic._werkzeug_serving')
 LONG_LIVED_BASES = [('clastic.middleware.core', 'Middleware'), ('clastic.application', 'Application'), ('clastic.application', 'SubApplication'),
                     ('clastic.route', 'Route'), ('clastic.route', 'BoundRoute'), ('clastic.errors', 'ErrorHandler')]
+# (module in whose namespace the class is known, name there): the entry denotes the *definition* that name resolves to -- the
+# class statement itself, wherever in the package it is written (it may live in another module and be imported back)
 SHARED_BY_DESIGN = {
     ('clastic.middleware.stats', 'Reservoir'): 'sampling reservoir of the statistics middleware: aggregates across requests by design',
     ('clastic.middleware.stats', 'StatsMiddleware'): 'route_hits counters: shared by design (the middleware exists to aggregate across requests)',
@@ -142,6 +144,7 @@ class Ring(object):
         self.classes = [c for m in self.mods for c in m.classes.values()]
         self._mro = {}
         self._ctor_only = {}
+        self._design = None
         self.long_lived = self._long_lived()
 
     def mro(self, ci):
@@ -200,8 +203,12 @@ class Ring(object):
         bases = []
         for mn, cn in LONG_LIVED_BASES:
             m = repo.try_mod(mn)
-            if m is not None and cn in m.classes:
-                bases.append(m.classes[cn])
+            if m is None:
+                continue
+            try:
+                bases.append(m.cls(cn))         # the definition, wherever in the package it is written now
+            except AnalysisError:
+                continue
         ll = {}
         for c in self.classes:
             if self._per_request(c):
@@ -264,11 +271,28 @@ class Ring(object):
                         changed = True
         return ll
 
+    def design_classes(self):
+        """{ClassInfo: reason} -- the definitions the table of classes that are shared by design names: each entry is
+        resolved in the namespace of the module it mentions (``repo.resolve`` follows an import to the class statement)."""
+        if self._design is None:
+            self._design = {}
+            for (mn, cn), why in SHARED_BY_DESIGN.items():
+                m = self.repo.try_mod(mn)
+                if m is None or m.external:
+                    continue
+                try:
+                    kind, m_, obj = self.repo.resolve(m, cn)
+                except Exception:
+                    continue
+                if kind == 'class' and isinstance(obj, ClassInfo) and not obj.mod.external:
+                    self._design[obj] = why
+        return self._design
+
     def by_design(self, ci):
-        for (mn, cn), why in SHARED_BY_DESIGN.items():
-            for b in self.mro(ci):
-                if isinstance(b, ClassInfo) and b.mod.name == mn and b.name == cn:
-                    return why
+        table = self.design_classes()
+        for b in self.mro(ci):
+            if isinstance(b, ClassInfo) and b in table:
+                return table[b]
         return None
 
     # -- which functions ---------------------------------------------------------------------------------------------------
@@ -277,7 +301,7 @@ class Ring(object):
         construction code."""
         out = []
         for m in self.mods:
-            if m.name in CORE_MODS or m.name in SERVER_MODS:
+            if m in self.rp.mods or m.name in SERVER_MODS:
                 continue
             for fi in m.functions.values():
                 if isinstance(fi.node, ast.Lambda):
@@ -551,9 +575,204 @@ def positive_control(ring):
         raise AnalysisError('positive control for the long-lived receiver classification failed: %s' % got)
 
 
+def ring_of(repo, rp):
+    r = getattr(rp, '_ring', None)
+    if r is None:
+        r = rp._ring = Ring(repo, rp)
+    return r
+
+
+# ---- R12.f: what a request is handed is not one long-lived mutable object ------------------------------------------------------
+MUTABLE_CTORS = {'list', 'dict', 'set', 'bytearray', 'defaultdict', 'OrderedDict', 'deque', 'Counter', 'ChainMap'}
+
+
+def positively_mutable(v):
+    """The expression builds a mutable container: a list / dict / set display or comprehension, a call of a mutable container
+    constructor (the dual of ``mutable_default``: only what is positively mutable)."""
+    if isinstance(v, (ast.List, ast.Dict, ast.Set, ast.ListComp, ast.DictComp, ast.SetComp)):
+        return True
+    if isinstance(v, ast.Call):
+        f = v.func
+        name = f.id if isinstance(f, ast.Name) else (f.attr if isinstance(f, ast.Attribute) and isinstance(f.value, ast.Name) and
+                                                     f.value.id in ('collections', 'copy') else None)
+        return name in MUTABLE_CTORS
+    if isinstance(v, ast.IfExp):
+        return positively_mutable(v.body) or positively_mutable(v.orelse)
+    if isinstance(v, ast.BoolOp):
+        return any(positively_mutable(x) for x in v.values)
+    return False
+
+
+def handed_out(fi):
+    """[(statement, expression)] -- the values function fi hands to its caller: ``return e`` / ``yield e``, the alternatives of
+    a conditional expression / ``a or b`` taken apart, a local of fi that is only ever a plain copy of a name looked through."""
+    out = []
+
+    def alts(e, depth=0):
+        if isinstance(e, ast.IfExp) and depth < 4:
+            return alts(e.body, depth + 1) + alts(e.orelse, depth + 1)
+        if isinstance(e, ast.BoolOp) and depth < 4:
+            return [a for x in e.values for a in alts(x, depth + 1)]
+        if isinstance(e, ast.Name) and depth < 4 and e.id not in fi.params():
+            vals = [x for x in assigned_value(fi.node, e.id)]
+            if vals and all(idx is None and isinstance(v, ast.Name) and not isinstance(v, ast.AugAssign) for st, v, idx in vals):
+                return [a for st, v, idx in vals for a in alts(v, depth + 1)]
+        return [e]
+    for n in walk_body(fi.node):
+        e = None
+        if isinstance(n, ast.Return):
+            e = n.value
+        elif isinstance(n, ast.Yield):
+            e = n.value
+        if e is not None:
+            st = n
+            while st is not None and not isinstance(st, ast.stmt):
+                st = fi.mod.parents.get(st)
+            out.extend((st if st is not None else n, a) for a in alts(e))
+    return out
+
+
+_CONTROL_F = '''
+_EMPTY = []
+
+def build(multi):
+    missing = [] if multi else None
+    frozen = ()
+    def conv(value, acc=[]):
+        if value is None:
+            return missing
+        if value == '':
+            return _EMPTY
+        if value == '-':
+            return acc
+        if value == '+':
+            return frozen
+        return [value]
+    return conv
+'''
+_CONTROL_F_WANT = ['closure', 'module', 'default', None, None]
+
+
+def check_handed_out(rep, rule, rp):
+    """A value a request gets from clastic -- what a function that runs while a request is served returns or yields -- is
+    not one *long-lived mutable object*: (closure) a container the enclosing construction-time function built once and the
+    closure, which lives as long as the route / middleware it was made for, hands to every caller; (module) a module-level
+    mutable container; (default) the default object of a parameter; (class) a class-level mutable attribute no instance
+    ever re-binds.  Whoever receives it owns it by the convention of the property (URL parameters, injectables, contexts
+    "stay with that request"): updating it would be an update of state every other request sees."""
+    repo = rep.repo
+    ring = ring_of(repo, rp)
+
+    def construction_time(f):
+        """the function runs while the long-lived objects are built, not while a request is served"""
+        if isinstance(f.node, ast.Lambda):
+            return False
+        if f.mod in rp.mods:
+            return f not in rp.reach and not any(o in rp.reach for o in _enclosing_funcs(f))
+        return ring.is_construction(f, _class_of(repo, f))
+
+    def judge(fi, ci, e, locals_):
+        if not isinstance(e, (ast.Name, ast.Attribute)):
+            return None
+        if isinstance(e, ast.Attribute):
+            # self.<field> where the field is a class-level mutable object
+            if isinstance(e.value, ast.Name) and e.value.id == 'self' and ci is not None and 'self' in fi.params()[:1]:
+                clf = ring.class_level_field(ci, e.attr)
+                if clf is not None and positively_mutable(clf[1]):
+                    return 'class', 'the class-level object %s.%s = %s (written in the class body, never assigned per instance)' % (clf[0].name, e.attr, short(clf[1]))
+            return None
+        name = e.id
+        if name in fi.params():
+            d = defaults_of(fi.node).get(name)
+            if d is not None and positively_mutable(d) and not any(True for st, v, idx in assigned_value(fi.node, name) if not isinstance(v, ast.AugAssign)):
+                return 'default', 'the default object of parameter %s (%s is evaluated once, when the function is defined)' % (name, short(d))
+            return None
+        if name in locals_:
+            return None
+        for outer in _enclosing_funcs(fi):
+            if isinstance(outer.node, ast.Lambda):
+                if name in outer.params():
+                    return None
+                continue
+            if name in _local_names(outer):
+                if name in outer.params() or not construction_time(outer):
+                    return None
+                vals = [v for st, v, idx in assigned_value(outer.node, name) if idx is None and not isinstance(v, ast.AugAssign)]
+                hit = [v for v in vals if positively_mutable(v)]
+                if hit:
+                    return 'closure', 'the object %s = %s its enclosing function %s built once (the closure outlives the call that made it: every ' \
+                                      'call gets the same object)' % (name, short(hit[0]), outer.qualname)
+                return None
+        mo = ring.module_object(fi, name, locals_)
+        if mo is not None and any(v is not None and isinstance(v, ast.AST) and positively_mutable(v) for v in mo[1]):
+            return 'module', 'the module-level object %s = %s' % (name, short([v for v in mo[1] if isinstance(v, ast.AST) and positively_mutable(v)][0]))
+        return None
+
+    # positive control: one of each kind in a text that contains them, an immutable / a fresh value left alone
+    from ..loader import FuncInfo
+    tree = ast.parse(_CONTROL_F)
+
+    class _M(object):
+        name, external = '<control>', False
+        functions, classes, imports, parents = {}, {}, {}, {}
+        assigns = {'_EMPTY': [tree.body[0].value]}
+    for par in ast.walk(tree):
+        for ch in ast.iter_child_nodes(par):
+            _M.parents[ch] = par
+    b = FuncInfo(_M, tree.body[1], 'build')
+    c = FuncInfo(_M, [x for x in tree.body[1].body if isinstance(x, ast.FunctionDef)][0], 'build.conv')
+    _M.functions = {'build': b, 'build.conv': c}
+    saved = rp.mods, rp.reach, ring.repo
+    got = []
+
+    class _R(object):
+        @staticmethod
+        def resolve(mod, name):
+            return ('value', _M, _M.assigns[name]) if name in _M.assigns else ('unknown', mod, name)
+    try:
+        rp.mods, rp.reach, ring.repo = list(rp.mods) + [_M], dict(rp.reach), _R
+        for st, e in handed_out(c):
+            v = judge(c, None, e, _local_names(c))
+            got.append(v[0] if v else None)
+    finally:
+        rp.mods, rp.reach, ring.repo = saved
+    if got != _CONTROL_F_WANT:
+        raise AnalysisError('positive control for the handed-out-object classification failed: %s' % got)
+
+    funcs = [(fi, ci) for fi, ci in ring.functions()]
+    seen = set(fi for fi, _ in funcs)
+    for m in rp.mods:
+        for fi in m.functions.values():
+            if isinstance(fi.node, ast.Lambda) or fi in seen:
+                continue
+            # the core: what runs on the request path, and every closure (it runs when whoever holds it calls it)
+            if fi in rp.reach or _enclosing_funcs(fi):
+                funcs.append((fi, _class_of(repo, fi)))
+                seen.add(fi)
+    n = n_vals = 0
+    for fi, ci in sorted(funcs, key=lambda x: x[0].key):
+        if construction_time(fi) and not _enclosing_funcs(fi):
+            continue
+        n += 1
+        locals_ = _local_names(fi)
+        for st, e in handed_out(fi):
+            n_vals += 1
+            v = judge(fi, ci, e, locals_)
+            if v is None:
+                continue
+            rep.fail(rule, '%s::%s' % (fi.key, norm(st)[:90]),
+                     '%s hands out %s: every request that gets it holds the same mutable object -- what one request does to its '
+                     'value is seen by all others (a per-request value must be allocated per call, or be immutable)' % (fi.qualname, v[1]), fi.mod, st)
+    rep.ok(rule, 'clastic::values handed out', '%d functions that run while a request is served (%d returned / yielded values): none is a '
+           'long-lived mutable object (closure-captured container, module-level container, default object, class-level container; '
+           'control matched)' % (n, n_vals))
+    if n < 60:
+        raise AnalysisError('rule %s: only %d functions found: the tree was not understood' % (rule, n))
+
+
 def check_ring(rep, rule, rp):
     repo = rep.repo
-    ring = Ring(repo, rp)
+    ring = ring_of(repo, rp)
     positive_control(ring)
     n_funcs = n_effects = 0
     table_hits = {}
@@ -612,7 +831,7 @@ def check_ring(rep, rule, rp):
                         (e.kind == 'mutcall' or (e.kind in ('store', 'delete') and len(e.chain) >= 2) or
                          (e.kind == 'augname' and not effects.aug_rebinds(e.node)))]
                 rebound = any(True for st, v, idx in assigned_value(fi.node, p) if not isinstance(v, ast.AugAssign))
-                if muts and not rebound and fi in rp.reach and fi.mod.name in CORE_MODS:
+                if muts and not rebound and fi in rp.reach and fi.mod in rp.mods:
                     rep.fail(rule, '%s::%s' % (fi.key, norm(muts[0].node)[:90]),
                              '%s updates the default object of parameter %s in place (%s is evaluated once, when the function is defined): '
                              'state that outlives the request' % (fi.qualname, p, short(d)), fi.mod, muts[0].node)
